@@ -104,7 +104,7 @@ func (ssm *serverStreamMedia) writePacketRTCP(pkt rtcp.Packet) error {
 
 	maxPlainPacketSize := ssm.st.Server.MaxPacketSize
 	if ssm.srtpOutCtx != nil {
-		maxPlainPacketSize -= srtcpOverhead
+		maxPlainPacketSize -= ssm.srtpOutCtx.rtcpOverhead()
 	}
 
 	if len(plain) > maxPlainPacketSize {
